@@ -346,6 +346,55 @@ func enumReaderCases(mode string, seed int64, thorough bool, n int) []func() (ca
 			}
 		}
 	}
+	if mode == "c11x" {
+		// long streams: the reader caps its batch size with a block count derived from the size recorded in the header,
+		// which saturates at 63; ranges around that boundary and near the end, with and without a recorded size
+		nbs := []int{70}
+		if thorough {
+			nbs = []int{70, 64, 130, 300}
+		}
+		for li, nb := range nbs {
+			for hi, hintKind := range []int{1, 0} {
+				B := 1024
+				size := (nb-1)*B + 1 + rnd.Intn(B)
+				shape := pick(rnd, []string{"text", "mixed", "runs", "numeric"})
+				pair := fastPairs[rnd.Intn(12)]
+				hint := int64(-1)
+				if hintKind == 1 {
+					hint = int64(size)
+				}
+				w := kz.Cfg{Transform: pair[0], Entropy: pair[1], Block: uint(B), Jobs: 4, Ck: pick(rnd, []uint{0, 32}), Hint: hint}
+				dseed := seed*137 + int64(1000+li*2+hi)
+				orig := gen.Make(shape, dseed, size)
+				stream, err := kz.Compress(orig, w, nil, nil)
+				if err != nil {
+					continue
+				}
+				chk, derr := kz.Decompress(stream, kz.RCfg{Jobs: 1}, nil, nil, nil, size+1<<20)
+				if derr != nil || string(chk) != string(orig) {
+					continue
+				}
+				base := readerRun{Shape: shape, Size: size, W: w, CloseAt: -1, After: 3, Mode: "clean"}
+				froms := []int{1, 2, 31, 62, 63, 64, 65, 66, nb - 1, nb, nb + 1}
+				for _, from := range froms {
+					for _, to := range []int{from, from + 1, from + 2, 64, 65, nb, nb + 1, nb + 3} {
+						if to < from || from < 1 {
+							continue
+						}
+						run := base
+						run.Run, run.Seed = k, dseed+int64(from*1000+to)
+						run.R = kz.RCfg{Jobs: []uint{1, 2, 3, 4, 8}[(from+to+li)%5], From: from, To: to}
+						run.Lens = lensMenu[(from*7+to)%len(lensMenu)]
+						run.Perturb = []int{0, 4}[(from+to)%2]
+						exp := expectedSlice(orig, B, from, to)
+						r := run
+						gens = append(gens, func() (caseT, bool) { return caseT{&r, stream, exp, nil}, true })
+						k++
+					}
+				}
+			}
+		}
+	}
 	return gens
 }
 
